@@ -302,4 +302,182 @@ theorem fwd_typeSystemExtension {dk : Kind} (hdk : DescKind dk) (it : SItem) (ho
         (Fwd.ite_neg (by decide) (Fwd.ite_neg (by decide) (Fwd.ite_pos rfl (fin _ ?_)))))))
       exact fwd_parseInputObjectTypeExtension hdk d hkind hdok hdesc hx n _ σ' hs2 hfol
 
+/-! ### the document loop -/
+
+/-- the dispatch on the keyword inside the loop of `parseSchemaDocument` -/
+def docDispatch (m n : Nat) (doc : SchemaDoc) (description : Bytes) (hasDescription : Bool) (v : Bytes) : Prog SchemaDoc :=
+  if v = kwScalar ∨ v = kwType ∨ v = kwInterface ∨ v = kwUnion ∨ v = kwEnum ∨ v = kwInput then do
+    let df ← parseTypeSystemDefinition m description
+    schemaDocLoop m n { doc with definitions := doc.definitions ++ [df] }
+  else if v = kwSchema then do
+    let sd ← parseSchemaDefinition m description
+    schemaDocLoop m n { doc with schema := doc.schema ++ [sd] }
+  else if v = kwDirective then do
+    let dd ← parseDirectiveDefinition m description
+    schemaDocLoop m n { doc with directives := doc.directives ++ [dd] }
+  else if v = kwExtend then do
+    rejectDescription hasDescription
+    let doc' ← parseTypeSystemExtension m doc
+    schemaDocLoop m n doc'
+  else do
+    unexpectedError
+    pure default
+
+theorem schemaDocLoop_succ (m n : Nat) (doc : SchemaDoc) :
+    schemaDocLoop m (n + 1) doc = (do
+      let t ← peek
+      if t.kind ≠ .eof then
+        if ← hasErr then pure default
+        else
+          let (description, hasDescription) ← parseOptionalDescription
+          let c ← peek
+          if c.kind ≠ .name then
+            unexpectedError
+            pure doc
+          else
+            let d ← peek
+            docDispatch m n doc description hasDescription d.value
+      else pure doc) := rfl
+
+/-- one iteration of the loop up to the dispatch: the description is read, the keyword is peeked -/
+theorem fwd_loopStep {dk : Kind} (hdk : DescKind dk) (m n : Nat) (doc : SchemaDoc) (a : AS) (desc : Bytes) (kw : Tok)
+    (body : List Tok) (σm : Stream) (hkw : kw.kind = .name) (hs : Starts a.σ (printDescK dk desc ++ kw :: body) σm)
+    (R : SchemaDoc → AS → Prop)
+    (hrest : ∀ (has : Bool) (a5 : AS), (has = true → desc ≠ []) → Starts a5.σ (kw :: body) σm →
+      Fwd (docDispatch m n doc desc has kw.value) a5 R) :
+    Fwd (schemaDocLoop m (n + 1) doc) a R := by
+  rw [Starts.append_iff] at hs
+  obtain ⟨σd, hd1, hd2⟩ := hs
+  have hkd : σd.head.kind = .name := by rw [hd2.head_kind]; exact hkw
+  have hvd : σd.head.value = kw.value := by
+    rw [← show (Tok.ofToken σd.head).value = σd.head.value from rfl, hd2.head]
+  have hne : a.σ.head.kind ≠ .eof := by
+    rw [hd1.firstKind, firstKind_descK]
+    split
+    · rw [hkd]; decide
+    · rcases hdk with h | h <;> rw [h] <;> decide
+  rw [schemaDocLoop_succ]
+  refine Fwd.bind (fwd_peek a) ?_
+  rintro t a1 ⟨rfl, rfl⟩
+  refine Fwd.ite_pos hne (Fwd.bind (fwd_hasErr _) ?_)
+  rintro e a2 ⟨rfl, rfl⟩
+  refine Fwd.ite_neg (by simp) ?_
+  refine Fwd.bind (fwd_optionalDescription hdk desc _ σd (by simpa using hd1) (fun _ => ⟨by rw [hkd]; decide, by rw [hkd]; decide⟩)) ?_
+  rintro ⟨description, has⟩ a3 ⟨hdesc, hhas, hσ3⟩
+  simp only at hdesc hhas
+  subst hdesc
+  simp only
+  refine Fwd.bind (fwd_peek a3) ?_
+  rintro c a4 ⟨rfl, rfl⟩
+  refine Fwd.ite_neg (by rw [hσ3]; simp [hkd]) (Fwd.bind (fwd_peek _) ?_)
+  rintro dtok a5 ⟨rfl, rfl⟩
+  simp only [hσ3, hvd]
+  exact hrest has _ hhas (by simpa [hσ3] using hd2)
+
+theorem fwd_schemaDocLoop {dk : Kind} (hdk : DescKind dk) (m : Nat) : ∀ (items : List SItem), (∀ it ∈ items, ItemOK it) →
+    ∀ (n : Nat) (doc : SchemaDoc) (a : AS) (σ' : Stream), Starts a.σ (items.flatMap (printItemK dk)) σ' → σ'.head.kind = .eof →
+      Fwd (schemaDocLoop m n doc) a (fun d a' =>
+        d.erasePos = (items.map SItem.norm).foldl SchemaDoc.add doc.erasePos ∧ a'.σ = σ')
+  | [], _ => by
+    intro n doc a σ' hs heof
+    rw [List.flatMap_nil, Starts.nil_iff] at hs
+    cases n with
+    | zero => exact Fwd.outOfFuel _ _ _
+    | succ n =>
+      unfold schemaDocLoop
+      refine Fwd.bind (fwd_peek a) ?_
+      rintro t a1 ⟨rfl, rfl⟩
+      refine Fwd.ite_neg (by rw [hs]; simp [heof]) ((Fwd.pure _ _).mono ?_)
+      rintro d a' ⟨rfl, rfl⟩
+      exact ⟨rfl, hs⟩
+  | it :: rest, hok => by
+    intro n doc a σ' hs heof
+    have hit := hok it (List.mem_cons_self)
+    rw [List.flatMap_cons, Starts.append_iff] at hs
+    obtain ⟨σm, hb, hrest⟩ := hs
+    cases n with
+    | zero => exact Fwd.outOfFuel _ _ _
+    | succ n =>
+      have ih := fwd_schemaDocLoop hdk m rest (fun b hb => hok b (List.mem_cons_of_mem _ hb)) n
+      have hfolm : FolItem σm := by
+        cases rest with
+        | nil =>
+          rw [List.flatMap_nil, Starts.nil_iff] at hrest
+          rw [hrest]; exact folItem_of_eof heof
+        | cons it2 r =>
+          rw [List.flatMap_cons, Starts.append_iff] at hrest
+          obtain ⟨σ2, h2, _⟩ := hrest
+          exact (folItem_of_item hdk it2 h2).1
+      have hcont : ∀ (doc' : SchemaDoc) (a3 : AS), doc'.erasePos = doc.erasePos.add it.norm → a3.σ = σm →
+          Fwd (schemaDocLoop m n doc') a3 (fun d a' =>
+            d.erasePos = ((it :: rest).map SItem.norm).foldl SchemaDoc.add doc.erasePos ∧ a'.σ = σ') := by
+        intro doc' a3 hdoc' hσ3
+        refine (ih doc' a3 σ' (by rw [hσ3]; exact hrest) heof).mono ?_
+        rintro d a' ⟨e1, e2⟩
+        exact ⟨by rw [e1, hdoc']; rfl, e2⟩
+      cases it with
+      | definition d =>
+        refine fwd_loopStep hdk m n doc a d.desc (DefKind.keyword d.kind) (printDefBodyK dk d) σm (keyword_value d.kind).1
+          (by simpa [printItemK, printDefinitionK] using hb) _ ?_
+        intro has a5 _ hst
+        unfold docDispatch
+        refine Fwd.ite_pos (by rw [(keyword_value d.kind).2]; cases d.kind <;> simp) ?_
+        refine Fwd.bind (fwd_typeSystemDefinition hdk d hit m a5 σm hst hfolm) ?_
+        rintro df a6 ⟨hdf, hσ6⟩
+        exact hcont _ a6 (by simp [SchemaDoc.erasePos, SchemaDoc.add, SItem.norm, hdf]) hσ6
+      | schema s =>
+        refine fwd_loopStep hdk m n doc a s.desc (tKw "schema") _ σm rfl
+          (by simpa [printItemK, printSchemaDefK] using hb) _ ?_
+        intro has a5 _ hst
+        unfold docDispatch
+        refine Fwd.ite_neg (by decide) (Fwd.ite_pos rfl ?_)
+        refine Fwd.bind (fwd_schemaDefinition s hit m a5 σm (by simpa using hst)) ?_
+        rintro sd a6 ⟨hsd, hσ6⟩
+        exact hcont _ a6 (by simp [SchemaDoc.erasePos, SchemaDoc.add, SItem.norm, hsd]) hσ6
+      | directive d =>
+        refine fwd_loopStep hdk m n doc a d.desc (tKw "directive") _ σm rfl
+          (by simpa [printItemK, printDirectiveDefK] using hb) _ ?_
+        intro has a5 _ hst
+        unfold docDispatch
+        refine Fwd.ite_neg (by decide) (Fwd.ite_neg (by decide) (Fwd.ite_pos rfl ?_))
+        refine Fwd.bind (fwd_directiveDefinition hdk d hit m a5 σm (by simpa using hst) hfolm.2.2.2.2.2.1) ?_
+        rintro dd a6 ⟨hdd, hσ6⟩
+        exact hcont _ a6 (by simp [SchemaDoc.erasePos, SchemaDoc.add, SItem.norm, hdd]) hσ6
+      | schemaExt s =>
+        refine fwd_loopStep hdk m n doc a [] (tKw "extend") _ σm rfl
+          (by simpa [printItemK, printSchemaExt, printDescK] using hb) _ ?_
+        intro has a5 hhas hst
+        have hfalse : has = false := by
+          cases has with
+          | false => rfl
+          | true => exact absurd rfl (hhas rfl)
+        subst hfalse
+        unfold docDispatch
+        refine Fwd.ite_neg (by decide) (Fwd.ite_neg (by decide) (Fwd.ite_neg (by decide) (Fwd.ite_pos rfl ?_)))
+        unfold rejectDescription
+        refine Fwd.bind (Fwd.ite_neg (by simp) (Fwd.pure () a5)) ?_
+        rintro _ a6 ⟨_, rfl⟩
+        refine Fwd.bind (fwd_typeSystemExtension hdk (.schemaExt s) hit (.inl ⟨s, rfl⟩) m doc a6 σm
+          (by simpa [printItemK, printSchemaExt] using hst) hfolm) ?_
+        rintro doc' a7 ⟨hdoc', hσ7⟩
+        exact hcont doc' a7 hdoc' hσ7
+      | extension d =>
+        refine fwd_loopStep hdk m n doc a [] (tKw "extend") _ σm rfl
+          (by simpa [printItemK, printExtensionK, printDescK] using hb) _ ?_
+        intro has a5 hhas hst
+        have hfalse : has = false := by
+          cases has with
+          | false => rfl
+          | true => exact absurd rfl (hhas rfl)
+        subst hfalse
+        unfold docDispatch
+        refine Fwd.ite_neg (by decide) (Fwd.ite_neg (by decide) (Fwd.ite_neg (by decide) (Fwd.ite_pos rfl ?_)))
+        unfold rejectDescription
+        refine Fwd.bind (Fwd.ite_neg (by simp) (Fwd.pure () a5)) ?_
+        rintro _ a6 ⟨_, rfl⟩
+        refine Fwd.bind (fwd_typeSystemExtension hdk (.extension d) hit (.inr ⟨d, rfl⟩) m doc a6 σm
+          (by simpa [printItemK, printExtensionK] using hst) hfolm) ?_
+        rintro doc' a7 ⟨hdoc', hσ7⟩
+        exact hcont doc' a7 hdoc' hσ7
+
 end Gql.Parser
